@@ -61,16 +61,20 @@ def user_blocks(res, rng, n):
     import py4hw
 
     class Wild(py4hw.Logic):
-        def __init__(self, parent, name, a, q, p, mode, k):
+        def __init__(self, parent, name, a, q, p, mode, k, bus=None):
             super().__init__(parent, name)
             self.a = self.addIn('a', a)
             self.q = self.addOut('q', q)
             self.p = self.addOut('p', p)
+            # a shared bidirectional bus driven from clock() (registered pad driver): BidirWire has its own put/prepare/settle
+            self.bus = None if bus is None else self.addInOut('bus', bus)
             self.mode, self.k, self.count = mode, k, 0
 
         def clock(self):
             self.count += 1
             v = self.count * self.k - 3 * self.a.get()
+            if self.bus is not None:
+                self.bus.prepare(-v if self.count % 3 == 0 else v + (1 << (self.bus.getWidth() + 1)))
             if self.mode == 0:
                 self.q.prepare(v)
             elif self.mode == 1:
@@ -90,11 +94,21 @@ def user_blocks(res, rng, n):
         hw = py4hw.HWSystem()
         a = hw.wire('a', r.randint(1, 9))
         ws = []
+        rb = r.fork('bus')
+        bus = hw.bidir_wire('bus', rb.randint(1, 9)) if rb.chance(1, 2) else None
         for j in range(r.randint(1, 3)):
             q = hw.wire(f'q{j}', r.randint(1, 9))
             pw = hw.wire(f'p{j}', r.randint(1, 9))
-            Wild(hw, f'w{j}', a if j == 0 else ws[-1], q, pw, r.randint(0, 2), r.choice([1, 7, 100, -5, 1 << 12]))
+            Wild(hw, f'w{j}', a if j == 0 else ws[-1], q, pw, r.randint(0, 2), r.choice([1, 7, 100, -5, 1 << 12]),
+                 bus=bus if j == 0 else None)
             ws.append(q)
+        if bus is not None and rb.chance(1, 2):
+            # a listening BidirBuf copies the bus into an ordinary wire (combinational put path of the bidir wire)
+            bw = bus.getWidth()
+            pin, pout, poe = hw.wire('pin', bw), hw.wire('pout', bw), hw.wire('poe', 1)
+            py4hw.Constant(hw, 'pout', 0, pout)
+            py4hw.Constant(hw, 'poe', 0, poe)
+            py4hw.BidirBuf(hw, 'pad', pin, pout, poe, bus)
         sim = hw.getSimulator()
         wires = D.all_wires(hw)
         desc = dict(design='user-defined Wild leaves', n=len(ws), widths=[w.getWidth() for w in wires])
